@@ -192,3 +192,79 @@ class sym_int(int, metaclass=_IntMeta):
         if isinstance(x, SIntInt):
             return x.s
         return int(x, *a)
+
+
+# ----------------------------------------------------------------------------------------------------
+# Python's set iteration order is unspecified (hash order).  Code under test that iterates over a set
+# of iteration numbers must work for EVERY order, so the stand-in forks over all permutations.
+class SymSet:
+    def __init__(self, items=()):
+        self.items = []
+        for x in items:
+            if not any(x == y for y in self.items):
+                self.items.append(x)
+
+    def __len__(self):
+        return len(self.items)
+
+    def __contains__(self, x):
+        return any(x == y for y in self.items)
+
+    def add(self, x):
+        if x not in self:
+            self.items.append(x)
+
+    def __iter__(self):
+        # hidden "hash order": one arbitrary but fixed relation between the symbolic values per path
+        # (decided lazily by forking on fresh booleans, cached in the context), so every set met on a
+        # path iterates consistently and all orders are explored across paths
+        c = ctx()
+        rel = getattr(c, 'hash_before', None)
+        if rel is None:
+            rel = c.hash_before = {}
+
+        def before(a, b):
+            ta, tb = _term(a), _term(b)
+            if ta is None or tb is None:
+                return False
+            key = (ta.id, tb.id)
+            if key in rel:
+                return rel[key]
+            if (tb.id, ta.id) in rel:
+                return not rel[(tb.id, ta.id)]
+            v = bool(SymBool(tm.cmp0(tm.var(f'__hb_{min(key)}_{max(key)}'), '<')))
+            rel[key] = v if ta.id < tb.id else v
+            return rel[key]
+        out = []
+        for x in self.items:                     # insertion sort with the hidden relation
+            k = 0
+            while k < len(out) and before(out[k], x):
+                k += 1
+            out.insert(k, x)
+        return iter(out)
+
+    def __eq__(self, o):
+        if isinstance(o, SymSet):
+            return len(self) == len(o) and all(x in o for x in self.items)
+        return NotImplemented
+
+    def __repr__(self):
+        return f"SymSet({self.items})"
+
+
+def sym_set(items=()):
+    items = list(items.items) if isinstance(items, SymSet) else list(items)
+    if any(isinstance(x, (SInt, SIntInt)) for x in items):
+        return SymSet(items)
+    return set(items)
+
+
+def sym_sorted(x, **kw):
+    """sorted(): sorting a SymSet does not depend on its iteration order, so no permutation fork"""
+    if isinstance(x, SymSet):
+        return sorted(x.items, **kw)
+    return sorted(x, **kw)
+
+
+def sym_list(x=()):
+    return list(x)
